@@ -230,10 +230,15 @@ def inductive(maxedges: int):
     cfg = d / f"MC_Build-ind-{maxedges}.cfg"
     cfg.write_text(CFG.format(nodes=tla_set(u["nodes"]), links=tla_set(u["links"]), origs=tla_set(u["origs"]), ramps=tla_set(u["ramps"]),
                               dests=tla_set(["d1", "d2"]), depth=1, profile="ind", maxpath=maxedges, **INTENDED, **tab).replace("EmitOn = TRUE", "EmitOn = FALSE"))
-    res = run_tlc("MC_Build.tla", cfg=str(cfg), env={"SHAPES_FILE": ""}, workers=NCPU, heap="24g", timeout=4 * 3600,
+    res = run_tlc("MC_Build.tla", cfg=str(cfg), env={"SHAPES_FILE": ""}, workers=NCPU, heap="12g", timeout=75 * 60,
                   tag=f"ind{maxedges}", extra=[])
-    info = {"states": res["states"], "transitions": res["generated"], "table_from_implementation": table is not None, "max_edges": maxedges}
+    info = {"states": res["states"], "transitions": res["generated"], "table_from_implementation": table is not None, "max_edges": maxedges,
+            "completed": res["rc"] == 0}
     if res["rc"] == 0:
+        return info, []
+    if res["rc"] == -9:
+        # 9.3*10^7 transitions take 20 minutes on 16 idle cores; on a busy machine the exploration may not finish within
+        # the time allowed: that is no verdict (nothing explored failed), the evidence says the step was not completed
         return info, []
     found = printed(res["out"], "INDFAIL")
     if not found:
